@@ -61,8 +61,10 @@ type HostConf struct {
 	Conflict       string   `json:"conflict,omitempty"` // cmd+reattach | secure+reattach | mux+reattach
 	Script         string   `json:"script,omitempty"`   // plugin is this shell script
 	StartTimeoutMs int      `json:"start_timeout_ms,omitempty"`
-	ScriptLine     string   `json:"script_line,omitempty"` // plugin is a shell script printing this line instead of vplugin
-	Group          string   `json:"group,omitempty"`       // UnixSocketConfig.Group
+	ScriptLine     string   `json:"script_line,omitempty"`    // plugin is a shell script printing this line instead of vplugin
+	Group          string   `json:"group,omitempty"`          // UnixSocketConfig.Group
+	Managed        bool     `json:"managed,omitempty"`        // ClientConfig.Managed (for CleanupClients)
+	AmbientInCmd   bool     `json:"ambient_in_cmd,omitempty"` // the cell's ambient variables are put into Cmd.Env, not into the host's environment
 	MinPort        uint     `json:"min_port,omitempty"`
 	MaxPort        uint     `json:"max_port,omitempty"`
 	CertPEM        string   `json:"cert_pem,omitempty"` // static TLS: trust this server certificate
@@ -286,6 +288,7 @@ func RunCell(c *Cell) (res *Result) {
 			Stderr:              plog,
 			SkipHostEnv:         c.Host.SkipHostEnv,
 			GRPCBrokerMultiplex: c.Host.Mux,
+			Managed:             c.Host.Managed,
 		}
 		if c.Host.StartTimeoutMs > 0 {
 			cfg.StartTimeout = time.Duration(c.Host.StartTimeoutMs) * time.Millisecond
@@ -502,6 +505,22 @@ func RunCell(c *Cell) (res *Result) {
 			}
 			clients[i].Kill()
 			record(op, t0, nil, strconv.FormatBool(clients[i].Exited()))
+		case "cleanup": // plugin.CleanupClients(): kills every managed client of this host process
+			plugin.CleanupClients()
+			record(op, t0, nil, strconv.FormatBool(clients[cur()].Exited()))
+		case "waitexit": // wait (up to 10 s) until client arg reports the plugin as exited
+			i, _ := strconv.Atoi(arg)
+			ok := false
+			for k := 0; k < 100 && !ok; k++ {
+				if ok = clients[i].Exited(); !ok {
+					time.Sleep(100 * time.Millisecond)
+				}
+			}
+			if !ok {
+				record(op, t0, errors.New("client does not report the plugin as exited 10 s after it was shut down"), "")
+			} else {
+				record(op, t0, nil, "exited")
+			}
 		case "killconc": // arg concurrent Kill calls on the current client; a panic in any of them is reported
 			n, _ := strconv.Atoi(arg)
 			if n < 2 {
@@ -747,6 +766,12 @@ func RunCell(c *Cell) (res *Result) {
 				// then fails the handshake; the default command runner is what go-plugin builds for it
 				cfg.RunnerFunc = nil
 				cfg.Cmd = exec.Command("/bin/sh", "-c", "/usr/bin/env -0 > "+dump+"; echo not-a-plugin; exit 0")
+				if c.Host.AmbientInCmd {
+					// the application built the command's environment itself (from its own, as a host that is a plugin does)
+					for k, v := range c.Ambient {
+						cfg.Cmd.Env = append(cfg.Cmd.Env, k+"="+v)
+					}
+				}
 			}
 			cl := plugin.NewClient(cfg)
 			cl.Start()
